@@ -117,11 +117,11 @@ def strip_nulls(x):
 _verdict_re = re.compile(r'^<<"(REJECT|ASTDIFF|SILENT|CRASH|UNSUPPORTED|NOTE)", (\d+)(?:, (.*))?>>$')
 
 
-def judge(events, module="Trace_Eval", cfg=None, shards=8, tag="jd", timeout=3600, env=None):
+def judge(events, module="Trace_Eval", cfg=None, shards=8, tag="jd", timeout=3600, env=None, min_per_shard=300):
     """Run the judge spec on events (sharded). Returns (verdicts: dict idx -> set of tags, stats)."""
     if not events:
         return {}, {"distinct": 0, "generated": 0}
-    shards = max(1, min(shards, (len(events) + 299) // 300))
+    shards = max(1, min(shards, (len(events) + min_per_shard - 1) // min_per_shard))
     bounds = [(len(events) * i // shards, len(events) * (i + 1) // shards) for i in range(shards)]
 
     def one(i):
